@@ -39,7 +39,7 @@ pub fn plan() -> Plan {
         profiles,
         directed: vec![],
         quick_histories: 1500,
-        thorough_histories: 400000,
+        thorough_histories: 1_200_000,
         s5: None,
         enumerate_session_end: None,
         enumerate_symbols: Some((2, 3, {
